@@ -143,6 +143,18 @@ def equivariance_case(case):
             if np.abs(D1 - D0).max() > 1e-7 * sc:
                 v.append(violation("gradient_not_equivariant", {"P": P, "sigma": sig, "tau": tau, "expected": E, "got": G1}, **where))
                 break
+    # the same reordering done by the caller IN PLACE on the affinity array it had already passed (same object, permuted content)
+    if A is not None and n > 1:
+        sig = list(range(1, n)) + [0]
+        Aw = np.array(A, dtype=float, copy=True)
+        g(P.copy(), Aw, return_grad=True)
+        Aw[...] = Aw[np.ix_(sig, sig)]
+        s1, G1 = g(P[sig].copy(), Aw, return_grad=True)
+        nev += 1
+        E = G0[sig]
+        if abs(float(s1) - float(s0)) > 1e-9 * max(1.0, abs(float(s0))) or \
+                np.abs((G1 - G1.mean(1, keepdims=True)) - (E - E.mean(1, keepdims=True))).max() > 1e-7 * sc:
+            v.append(violation("reordering_in_place_breaks_invariance", {"P": P, "sigma": sig, "score": float(s0), "permuted": float(s1), "expected_grad": E, "got_grad": G1}, **where))
     return {"v": v[:4], "nt": [case], "stats": {"evals": nev}, "sample": {"target": where["target"], "P": P, "affinity": tag}}
 
 
